@@ -15,12 +15,25 @@ import (
 	"sort"
 	"strings"
 
+	"github.com/emirpasic/gods/v2/lists/arraylist"
+	"github.com/emirpasic/gods/v2/lists/doublylinkedlist"
+	"github.com/emirpasic/gods/v2/lists/singlylinkedlist"
 	"github.com/emirpasic/gods/v2/maps/hashbidimap"
 	"github.com/emirpasic/gods/v2/maps/hashmap"
 	"github.com/emirpasic/gods/v2/maps/linkedhashmap"
 	"github.com/emirpasic/gods/v2/maps/treebidimap"
 	"github.com/emirpasic/gods/v2/maps/treemap"
+	"github.com/emirpasic/gods/v2/queues/arrayqueue"
+	"github.com/emirpasic/gods/v2/queues/circularbuffer"
+	"github.com/emirpasic/gods/v2/queues/linkedlistqueue"
+	"github.com/emirpasic/gods/v2/queues/priorityqueue"
+	"github.com/emirpasic/gods/v2/sets/hashset"
+	"github.com/emirpasic/gods/v2/sets/linkedhashset"
+	"github.com/emirpasic/gods/v2/sets/treeset"
+	"github.com/emirpasic/gods/v2/stacks/arraystack"
+	"github.com/emirpasic/gods/v2/stacks/linkedliststack"
 	"github.com/emirpasic/gods/v2/trees/avltree"
+	"github.com/emirpasic/gods/v2/trees/binaryheap"
 	"github.com/emirpasic/gods/v2/trees/btree"
 	rbt "github.com/emirpasic/gods/v2/trees/redblacktree"
 )
@@ -329,6 +342,8 @@ func init() {
 // ---------------------------------------------------------------------------------------------
 // C11 round trip: one event per visited state
 
+var otherPaths [][]Call // states serialised in between, see "stable"
+
 func roundTrip(u Universe, path []Call) {
 	x := replay(u, path)
 	e := Ev{"fam": "json", "kind": x.Kind(), "cfg": jsonCfg(x), "op": "RoundTrip", "rs": 1, "timeout": false, "obsbad": false,
@@ -341,6 +356,13 @@ func roundTrip(u Universe, path []Call) {
 	e["err"] = errS != "" || pan
 	e["panic"] = pan
 	e["text"] = string(text)
+	// the returned bytes belong to the caller: serialising other containers (or this one again) must not change them
+	saved := string(text)
+	for _, op := range otherPaths {
+		safeTo(replay(u, op))
+	}
+	safeTo(x)
+	e["stable"] = string(text) == saved
 	e["valid"] = json.Valid(text)
 	e["jkind"] = topKind(text)
 	// json.Marshal of the container must give the same text (as parsed values for unordered kinds)
@@ -538,9 +560,13 @@ func normObs(x Inst, o Ev) Ev {
 
 func jobJSON(j *jobCtx) {
 	strRoundTrips(j)
+	structRoundTrips(j)
 	for _, u := range jsonUniverses(j) {
 		x0 := u.New()
 		paths := enumStates(u, j.maxStates()/8, isMut(x0))
+		if bp := bigStatePath(x0); bp != nil {
+			paths = append(paths, bp)
+		}
 		// own outputs of (other) states are part of the load corpus
 		var own []string
 		for i, p := range paths {
@@ -549,6 +575,10 @@ func jobJSON(j *jobCtx) {
 					own = append(own, string(b))
 				}
 			}
+		}
+		otherPaths = nil
+		for i := len(paths) - 1; i >= 0 && len(otherPaths) < 2; i -= 1 + len(paths)/3 {
+			otherPaths = append(otherPaths, paths[i])
 		}
 		for i, p := range paths {
 			if budgetExceeded() {
@@ -696,7 +726,7 @@ func strRoundTrips(j *jobCtx) {
 				m.Put("a", "z")
 			}
 			e := Ev{"fam": "json", "kind": kind, "cfg": cfg, "op": "RoundTrip", "rs": 1, "timeout": false, "obsbad": false,
-				"panic": false, "pmsg": "", "out": 0, "odrain": []any{}, "fdrain": []any{}, "fdrain2": []any{}}
+				"panic": false, "pmsg": "", "out": 0, "odrain": []any{}, "fdrain": []any{}, "fdrain2": []any{}, "stable": true}
 			e["orig"], e["size"] = content(m), m.Size()
 			var text []byte
 			var err error
@@ -720,6 +750,153 @@ func strRoundTrips(j *jobCtx) {
 			e["loaderr2"], e["fresh2"], e["fsize2"] = e2 != nil || ci.Panic, content(z), z.Size()
 			emit(e)
 			distinct["rts|"+kind+"|"+string(text)] = struct{}{}
+		}
+	}
+}
+
+// ---------------------------------------------------------------------------------------------
+// struct elements with an omitted-when-empty member (C11: every JSON-representable element type)
+
+type SE struct {
+	N int    `json:"n"`
+	S string `json:"s,omitempty"`
+}
+
+func (e SE) String() string { return fmt.Sprintf("%d|%s", e.N, e.S) }
+
+func cmpSE(a, b SE) int {
+	switch {
+	case a.N != b.N:
+		return a.N - b.N
+	case a.S < b.S:
+		return -1
+	case a.S > b.S:
+		return 1
+	}
+	return 0
+}
+
+type seBox struct {
+	kind  string
+	mk    func() any
+	add   func(c any, e SE)
+	vals  func(c any) []SE
+	drain func(c any) []SE
+}
+
+func seBoxes() []seBox {
+	type adder interface{ Add(...SE) }
+	type valuer interface{ Values() []SE }
+	vals := func(c any) []SE { return c.(valuer).Values() }
+	addL := func(c any, e SE) { c.(adder).Add(e) }
+	none := func(c any) []SE { return nil }
+	type pusher interface {
+		Push(SE)
+		Pop() (SE, bool)
+	}
+	type enq interface {
+		Enqueue(SE)
+		Dequeue() (SE, bool)
+	}
+	drainS := func(c any) (out []SE) {
+		for i := 0; i < 100; i++ {
+			v, ok := c.(pusher).Pop()
+			if !ok {
+				break
+			}
+			out = append(out, v)
+		}
+		return
+	}
+	drainQ := func(c any) (out []SE) {
+		for i := 0; i < 100; i++ {
+			v, ok := c.(enq).Dequeue()
+			if !ok {
+				break
+			}
+			out = append(out, v)
+		}
+		return
+	}
+	push := func(c any, e SE) { c.(pusher).Push(e) }
+	enqueue := func(c any, e SE) { c.(enq).Enqueue(e) }
+	return []seBox{
+		{"arraylist", func() any { return arraylist.New[SE]() }, addL, vals, none},
+		{"singlylinkedlist", func() any { return singlylinkedlist.New[SE]() }, addL, vals, none},
+		{"doublylinkedlist", func() any { return doublylinkedlist.New[SE]() }, addL, vals, none},
+		{"hashset", func() any { return hashset.New[SE]() }, addL, vals, none},
+		{"linkedhashset", func() any { return linkedhashset.New[SE]() }, addL, vals, none},
+		{"treeset", func() any { return treeset.NewWith[SE](cmpSE) }, addL, vals, none},
+		{"arraystack", func() any { return arraystack.New[SE]() }, push, vals, drainS},
+		{"linkedliststack", func() any { return linkedliststack.New[SE]() }, push, vals, drainS},
+		{"arrayqueue", func() any { return arrayqueue.New[SE]() }, enqueue, vals, drainQ},
+		{"linkedlistqueue", func() any { return linkedlistqueue.New[SE]() }, enqueue, vals, drainQ},
+		{"circularbuffer", func() any { return circularbuffer.New[SE](4) }, enqueue, vals, drainQ},
+		{"priorityqueue", func() any { return priorityqueue.NewWith[SE](cmpSE) }, enqueue, vals, drainQ},
+		{"binaryheap", func() any { return binaryheap.NewWith[SE](cmpSE) }, func(c any, e SE) { c.(*binaryheap.Heap[SE]).Push(e) }, vals,
+			func(c any) (out []SE) {
+				for i := 0; i < 100; i++ {
+					v, ok := c.(*binaryheap.Heap[SE]).Pop()
+					if !ok {
+						break
+					}
+					out = append(out, v)
+				}
+				return
+			}},
+	}
+}
+
+func structRoundTrips(j *jobCtx) {
+	strs := func(vs []SE) []any {
+		out := []any{}
+		for _, v := range vs {
+			out = append(out, v.String())
+		}
+		return out
+	}
+	pool := []SE{{1, "first"}, {2, ""}, {3, "x"}, {0, ""}, {4, "first"}, {5, ""}}
+	for _, b := range seBoxes() {
+		if !j.want(b.kind) {
+			continue
+		}
+		disc := jsonDisc(b.kind)
+		cfg := Ev{"disc": disc, "kv": false, "cmp": "", "vcmp": "", "cap": 4, "m": 0, "sorted": false, "linked": false, "bidi": false,
+			"vsorted": false, "zero": 0, "structs": true}
+		for t := 0; t < 24; t++ {
+			c := b.mk()
+			n := 1 + t%5
+			for i := 0; i < n; i++ {
+				b.add(c, pool[(t+i*(1+t/6))%len(pool)])
+			}
+			e := Ev{"fam": "json", "kind": b.kind, "cfg": cfg, "op": "RoundTrip", "rs": 1, "timeout": false, "obsbad": false,
+				"panic": false, "pmsg": "", "out": 0, "stable": true}
+			orig := b.vals(c)
+			e["orig"], e["size"] = strs(orig), len(orig)
+			var text []byte
+			var err error
+			ci := invoke(e, func() { text, err = c.(jsonable).ToJSON() })
+			e["err"], e["panic"], e["text"] = err != nil || ci.Panic, ci.Panic, string(text)
+			e["valid"], e["jkind"] = json.Valid(text), topKind(text)
+			mb, merr := json.Marshal(c)
+			eq := merr == nil && bytes.Equal(mb, text)
+			if !eq && merr == nil && disc == "unordered" {
+				var x1, x2 []any
+				eq = json.Unmarshal(mb, &x1) == nil && json.Unmarshal(text, &x2) == nil && sameBagAny(x1, x2)
+			}
+			e["eqmarshal"] = eq
+			y, z := b.mk(), b.mk()
+			var e1, e2 error
+			ci = invoke(e, func() { e1 = y.(jsonable).FromJSON(text); e2 = json.Unmarshal(text, z) })
+			if ci.Panic {
+				e["panic"] = true
+			}
+			fy, fz := b.vals(y), b.vals(z)
+			e["loaderr"], e["fresh"], e["fsize"] = e1 != nil || ci.Panic, strs(fy), len(fy)
+			e["loaderr2"], e["fresh2"], e["fsize2"] = e2 != nil || ci.Panic, strs(fz), len(fz)
+			e["odrain"], e["fdrain"], e["fdrain2"] = strs(b.drain(c)), strs(b.drain(y)), strs(b.drain(z))
+			emit(e)
+			distinct["rtse|"+b.kind+"|"+string(text)] = struct{}{}
 		}
 	}
 }
